@@ -10,6 +10,7 @@ import (
 	"io"
 	"os"
 	"path/filepath"
+	"regexp"
 	"strconv"
 	"strings"
 	"testing"
@@ -365,6 +366,26 @@ func grammarMutate(t *rapid.T, s string, label string) string {
 	return s[:pos] + r[1] + s[pos+len(r[0]):]
 }
 
+var tokenRe = regexp.MustCompile(`"(?:[^"\\\n]|\\.)*"|-?[0-9][0-9.]*|@[A-Za-z0-9_]+|true|false|null`)
+
+// tokenMutate replaces, empties, duplicates or deletes one lexical token (string, number, type
+// name, keyword) of the text.
+func tokenMutate(t *rapid.T, s string, label string) string {
+	locs := tokenRe.FindAllStringIndex(s, -1)
+	if len(locs) == 0 {
+		return byteMutate(t, s, label+"BM")
+	}
+	// bias to the last tokens (errors near the end of a long line) in a third of the cases
+	i := rapid.IntRange(0, len(locs)-1).Draw(t, label+"Tok")
+	if rapid.IntRange(0, 2).Draw(t, label+"Last") == 0 {
+		i = len(locs) - 1 - rapid.IntRange(0, min(2, len(locs)-1)).Draw(t, label+"FromEnd")
+	}
+	a, b := locs[i][0], locs[i][1]
+	tok := s[a:b]
+	repl := rapid.SampledFrom([]string{`""`, "0", "-", "@", "{}", "[]", "null", tok + tok, "", `"@"`, `"`, tok + " " + tok, "1e", `"\u12"`, "@t0 |", "01"}).Draw(t, label+"Repl")
+	return s[:a] + repl + s[b:]
+}
+
 func baseCase(t *rapid.T) Case {
 	var c Case
 	switch rapid.IntRange(0, 3).Draw(t, "family") {
@@ -402,9 +423,18 @@ func baseCase(t *rapid.T) Case {
 		c.Schema = rapid.SampledFrom(repoSchemas()).Draw(t, "repo")
 		c.Docs = append(c.Docs, `{"id": 1}`)
 	}
+	if rapid.IntRange(0, 3).Draw(t, "longLines") == 0 {
+		// lines longer than the 200 bytes the renderer shows: a minified document and a long example
+		long := strings.Repeat("x", rapid.IntRange(150, 400).Draw(t, "longLen"))
+		c.Schema = "{\n  \"long\": \"" + long + "\", // {optional: true}\n  \"id\": 1, // {optional: true}\n  \"tail\": \"" + long[:40] + "\" // {optional: true, minLength: 1}\n}"
+		c.Docs = []string{"{\"long\":\"" + long + "\",\"id\":12345,\"tail\":\"t\"}", "{\"id\":1,\"long\":\"" + long + long + "\",\"tail\":\"\"}"}
+		c.Types, c.Enums, c.Regexes = nil, nil, nil
+		run.Label("family:long-lines")
+		return c
+	}
 	// enum rule + regex type in a fraction of the cases
 	if rapid.IntRange(0, 2).Draw(t, "withEnum") == 0 {
-		c.Enums = append(c.Enums, [2]string{"@e", rapid.SampledFrom([]string{"[1, 2]", "[\n 1, // one\n \"a\" /* b */\n]", "[]", "[true, null, 1.5]"}).Draw(t, "enumText")})
+		c.Enums = append(c.Enums, [2]string{"@e", rapid.SampledFrom([]string{"[1, 2]", "[\n 1, // one\n \"a\" /* b */\n]", "[]", "[true, null, 1.5]", "[1, 2] // tail comment", "[] /* c */", "[1] /* open", "[]/*", " [\"x\"]\n"}).Draw(t, "enumText")})
 		c.Schema = "{\n  \"en\": 1, // {enum: @e}\n  \"rest\": " + strings.ReplaceAll(c.Schema, "\n", "\n  ") + "\n}"
 	}
 	if rapid.IntRange(0, 3).Draw(t, "withRegex") == 0 {
@@ -449,9 +479,13 @@ func TestMutatedInputs(t *testing.T) {
 		c := baseCase(t)
 		role := rapid.IntRange(0, 9).Draw(t, "role")
 		mut := func(s string, l string) string {
-			if rapid.Bool().Draw(t, l+"Grammar") {
+			switch rapid.IntRange(0, 2).Draw(t, l+"MutKind") {
+			case 0:
 				run.Label("mutation:grammar-aware")
 				return grammarMutate(t, s, l)
+			case 1:
+				run.Label("mutation:token-level")
+				return tokenMutate(t, s, l)
 			}
 			run.Label("mutation:byte-level")
 			return byteMutate(t, s, l)
